@@ -45,21 +45,6 @@ def _connect(c, flavour):
     c.returns(cl)
 
 
-for _cls in ("SyncRpcClient", "AsyncRpcClient"):
-
-    def _mk(cls_name):
-        def close(c):
-            cl = c.param("self")
-            c.raises_only(set())
-            c.effect(lambda: c.ctx.event("close", client=cl))
-            c.returns(None)
-
-        REG.contract(f"dpapi_ng._rpc._client.{cls_name}.close", props=[], assumed=True,
-                     note="closes the transport; SyncRpcClient.close contains the package's only try/except (outside the supported subset and outside every property)")(close)
-
-    _mk(_cls)
-
-
 # ================================================================================================ C17: the conversation
 def _conversation(flavour):
     def spec(c):
